@@ -20,6 +20,7 @@ import (
 // pipe with a scripted raw-XML peer on the other end.
 type E2 struct {
 	rc        *RC
+	tornDown  bool
 	Sess      *xmpp.Session
 	SUT, Peer *simnet.Conn
 	Local     jid.JID
@@ -58,7 +59,7 @@ func (rc *RC) NewE2(o E2Opts) *E2 {
 	e := &E2{rc: rc, Server: o.S2S, WS: o.WS}
 	e.SUT, e.Peer = rc.Net.Pipe("sut", "peer")
 	e.Ctx, e.Cancel = context.WithCancel(context.Background())
-	rc.OnCleanup(func() { e.Cancel(); e.SUT.Close(); e.Peer.Close() })
+	rc.OnCleanup(func() { e.tornDown = true; e.Cancel(); e.SUT.Close(); e.Peer.Close() })
 	if o.Chunk {
 		rc.Net.Chunk = func() int { return 1 + rc.Ch.Int("net", 60) }
 	}
@@ -142,7 +143,7 @@ func (e *E2) PeerWrite(s string) { io.WriteString(e.Peer, s) }
 // WaitWire parks the calling task until the SUT's output contains sub.
 func (e *E2) WaitWire(site, sub string) {
 	b := []byte(sub)
-	simrt.WaitUntil("wire:"+site, func() bool { return bytes.Contains(e.SUT.Out().Tap, b) })
+	simrt.WaitUntil("wire:"+site, func() bool { return e.tornDown || bytes.Contains(e.SUT.Out().Tap, b) })
 }
 
 // Elem is one top-level element of a parsed stream.
